@@ -83,7 +83,7 @@ type xl struct {
 
 // identifiers the generated text uses itself; a Go variable of such a name gets a trailing underscore
 var xReserved = strings.Fields(`ctl Next Return Panic bindc go_call wrapU wrapS go_len go_nth go_in_range go_slice
- go_slice_ok go_bytes_eqb go_be_u16 go_be_u32 go_be_u64 go_emit_u8 go_emit_u16 go_emit_u32 go_emit_u64 go_range go_count go_map_get go_map_set go_make
+ go_slice_ok go_bytes_eqb go_be_u16 go_be_u32 go_be_u64 go_emit_u8 go_emit_u16 go_emit_u32 go_emit_u64 go_emit_bytes go_range go_count go_map_get go_map_set go_make
  andb orb negb implb true false tt nil cons list unit bool Z N nat fst snd pair Bool eqb
  fun let in if then else match with end as return forall exists fix cofix Type Prop Set struct where at using for IF
  Definition Fixpoint Record Lemma Theorem out st`)
@@ -1014,10 +1014,13 @@ func (x *xl) stmt(s ast.Stmt, rest func() string, d int) string {
 
 func (x *xl) assign(s *ast.AssignStmt, rest func() string, d int) string {
 	var g guards
-	// writer call: err = CALL, err := CALL, _ = CALL
-	if len(s.Lhs) == 1 && len(s.Rhs) == 1 {
+	// writer call: err = CALL, err := CALL, _ = CALL, and _, err = CALL for a primitive that also returns a count
+	if (len(s.Lhs) == 1 || (len(s.Lhs) == 2 && x.src(s.Lhs[0]) == "_")) && len(s.Rhs) == 1 {
 		if callee, prim, ok := x.writerCall(s.Rhs[0], &g); ok {
-			id, isId := s.Lhs[0].(*ast.Ident)
+			if len(s.Lhs) == 2 && prim == "" {
+				x.fail(s, "two results from a translated writer method")
+			}
+			id, isId := s.Lhs[len(s.Lhs)-1].(*ast.Ident)
 			if !isId {
 				x.fail(s, "result of a writer call assigned to %s", x.src(s.Lhs[0]))
 			}
